@@ -202,3 +202,47 @@ def smcert_line(P1, P2, V1, V2, mu, cert):
 def stable_line(P1, P2, mu):
     n = len(P1)
     return " ".join(["stable", str(n)] + [str(v) for M in (P1, P2) for row in M for v in row] + [str(x) for x in mu])
+
+
+# ---- stage-by-stage observation of Irving.scf (compared with the Lean mirror `IrvingAlgo`) ---------------------------
+def irving_stages(P1, P2, V1, V2):
+    """canonical answer lines of the driver ops irv_mo / irv_shortlists / irv_rotations / irv_poset / irv_closed, computed by
+    calling the real code's public stage functions in the order `Irving.scf` calls them (zero-indexed)"""
+    import numpy as np
+    from socialchoicekit.deterministic_matching import Irving, GaleShapley
+    from socialchoicekit.profile_utils import StrictCompleteProfile, IntegerValuationProfile
+    n = len(P1)
+    irv = Irving(zero_indexed=True)
+    op1 = np.array(P1, dtype=np.int64)
+    op2 = np.array(P2, dtype=np.int64)
+    v1 = IntegerValuationProfile.of(np.array(V1, dtype=np.int64))
+    v2 = IntegerValuationProfile.of(np.array(V2, dtype=np.int64))
+    sm = GaleShapley(resident_oriented=True, zero_indexed=True).scf(StrictCompleteProfile.of(op1), StrictCompleteProfile.of(op2), np.ones(n, dtype=int))
+    out = {}
+    out["irv_mo"] = "ok %d %s" % (len(sm), " ".join("%d %d" % (i, j) for i, j in sm))
+    pl1, pl2 = Irving.find_initial_preference_lists(sm, op1 - 1, op2 - 1)
+    out["irv_shortlists"] = "ok " + " ".join(
+        [" ".join([str(len(pl1[i]))] + [str(int(x)) for x in pl1[i]]) for i in range(n)] +
+        [" ".join([str(len(pl2[i]))] + [str(int(x)) for x in pl2[i]]) for i in range(n)])
+    c1 = {i: np.array(pl1[i]) for i in range(n)}
+    c2 = {i: np.array(pl2[i]) for i in range(n)}
+    rots, elim = irv.find_all_rotations_and_eliminations(c1, c2)
+    el = sorted(((int(m), int(w)), int(r)) for (m, w), r in elim.items())
+    out["irv_rotations"] = " ".join(["ok", str(len(rots))] +
+                                    [" ".join([str(len(r))] + ["%d %d" % (int(m), int(w)) for m, w in r]) for r in rots] +
+                                    [str(len(el))] + ["%d %d %d" % (m, w, r) for (m, w), r in el])
+    Pp = irv.construct_sparse_rotation_poset_graph(rots, pl1, elim)
+    edges = sorted((int(a), int(b)) for a in Pp for b in Pp[a])
+    out["irv_poset"] = " ".join(["ok", str(len(rots)), str(len(edges))] + ["%d %d" % e for e in edges])
+    ws = [int(Irving.rotation_weight(r, v1, v2)) for r in rots]
+    C = irv.find_maximum_weight_closed_subset(Pp, rots, v1, v2)
+    Cs = sorted(int(x) for x in C)
+    out["irv_closed"] = " ".join(["ok", str(len(rots))] + [str(w) for w in ws] + [str(len(Cs))] + [str(x) for x in Cs])
+    return out, len(rots)
+
+
+def irv_lines(P1, P2, V1, V2, ops):
+    n = len(P1)
+    r = "%d %s %s" % (n, " ".join(str(x) for row in P1 for x in row), " ".join(str(x) for row in P2 for x in row))
+    v = "%s %s" % (" ".join(str(x) for row in V1 for x in row), " ".join(str(x) for row in V2 for x in row))
+    return [("%s %s" % (op, r)) if op in ("irv_mo", "irv_shortlists", "irv_rotations", "irv_poset") else ("%s %s %s" % (op, r, v)) for op in ops]
